@@ -311,7 +311,7 @@ func equalStrings(a, b []string) bool {
 func init() {
 	register(&mon.CheckSpec{
 		ID: "C05", Level: "exploration",
-		Rule: "cases = (a) the 222 real records under /repo/**/testdata mutated by 1-4 seeded operators (byte flip, truncation, token delete/duplicate/swap, splice of ~120 hostile fragments, saddr fields of every length 0-60 x 8 families, hostile values, random bytes, 64 KiB fields), (b) pure random byte strings, (c) every mutated body also evaluated through Parse under each record type that selects its own enrichment path plus random types; thorough adds a sweep of ALL 65536 record types over a body subset. Each returned message has Data/Tags/ToMapStr called twice. distinct_nontrivial = distinct (type, input text) pairs for which the parser returned a message (so the enrichment code ran).",
+		Rule: "cases = (a) the 222 real records under /repo/**/testdata mutated by 1-4 seeded operators (byte flip, truncation, token delete/duplicate/swap, splice of ~120 hostile fragments, saddr fields of every length 0-60 x 8 families, hostile values, random bytes, 64 KiB fields), (b) pure random byte strings, (c) every mutated body also evaluated through Parse under each record type that selects its own enrichment path plus random types; thorough adds a sweep of ALL 65536 record types over a body subset. Each returned message has Data/Tags/ToMapStr called twice. Before the fuzz loop: all 338 ordered pairs / triples of 13 records with hex-decoded values (A decoded and copied with cloned strings, B decoded, A asked again), and sixteen goroutines decoding 48 000 / 3.2 M independent records with goroutine-private architecture / syscall / errno / address values (compared with a sequential pass); inside the loop every worker asks its previous message again after the next one was decoded. distinct_nontrivial = distinct (type, input text) pairs for which the parser returned a message (so the enrichment code ran).",
 		Assumptions: []string{
 			"hang monitor: a call still running after 30 s (inputs <= 64 KiB; normal cost microseconds to milliseconds) is a hang; the monitor ends the phase when it fires",
 			"a panic is recovered per call and attributed to its input; fatal runtime errors are attributed through the in-flight slots",
